@@ -1,3 +1,4 @@
+import Proofs.MemSound
 import Proofs.Memory
 import Proofs.Settle
 /-! Property theorems of C03 live in the imported files; the list audited on every run is in harness/props/c03.py. -/
